@@ -5,7 +5,7 @@ import ast
 from typing import Dict, List, Optional, Set, Tuple
 
 from ..analysis import Analysis, fmt_conj, implies
-from ..cfg import CFG, Node, is_back, is_exc
+from ..cfg import CFG, Node, is_back, is_exc, branch_of
 from ..model import AnalysisError, FunctionInfo, norm, walk_local
 
 EXE = "execution.executor."
@@ -222,6 +222,23 @@ def _all_over(e: ast.expr, elem_pred, iter_texts: Set[str]) -> bool:
     return False
 
 
+def _fn_all_over(fn_node: ast.FunctionDef, elem_pred, iter_texts: Set[str]) -> bool:
+    """The function returns `all(pred(x) for x in ITER)`, spelled as a single `return all(...)` or as the
+    explicit loop `for x in ITER: if not pred(x): return False` followed by `return True`."""
+    body = [s for s in fn_node.body if not (isinstance(s, ast.Expr) and isinstance(s.value, ast.Constant))]
+    if len(body) == 1 and isinstance(body[0], ast.Return) and body[0].value is not None:
+        return _all_over(body[0].value, elem_pred, iter_texts)
+    if len(body) == 2 and isinstance(body[0], ast.For) and isinstance(body[1], ast.Return):
+        loop, last = body
+        if loop.orelse or not isinstance(loop.target, ast.Name) or norm(loop.iter) not in iter_texts or norm(last.value) != "True" or len(loop.body) != 1:
+            return False
+        i = loop.body[0]
+        if not (isinstance(i, ast.If) and not i.orelse and len(i.body) == 1 and isinstance(i.body[0], ast.Return) and norm(i.body[0].value) == "False"):
+            return False
+        return isinstance(i.test, ast.UnaryOp) and isinstance(i.test.op, ast.Not) and elem_pred(i.test.operand, loop.target.id)
+    return False
+
+
 def rule_ex4(A: Analysis, rep, F: ExecFacts):
     st = _succeeded_states(A)
     rep.check(st is not None and "SUCCEEDED" in st and st <= {"SUCCEEDED", "SUCCEEDED_CACHED"}, "EX4", "succeeded() state set",
@@ -230,7 +247,7 @@ def rule_ex4(A: Analysis, rep, F: ExecFacts):
               "succeeded() accepts %s — skipped/failed/queued dependencies would count as success" % (sorted(st) if st else "an unrecognised form"))
     m = A.fn("execution.ops.operation.Operation.exe_deps_succeeded")
     rets = [x for x in walk_local(m.node) if isinstance(x, ast.Return)]
-    ok = len(rets) == 1 and _all_over(rets[0].value, lambda el, v: norm(el) == "%s.succeeded()" % v, {"self.exe_deps", "self._exe_deps"})
+    ok = _fn_all_over(m.node, lambda el, v: norm(el) == "%s.succeeded()" % v, {"self.exe_deps", "self._exe_deps"})
     rep.check(ok, "EX4", "exe_deps_succeeded = all(succeeded)", m.node, "all dependencies must have succeeded",
               "exe_deps_succeeded() is not `all(dep.succeeded() for dep in exe_deps)`")
     # overriders of succeeded / exe_deps_succeeded
@@ -544,11 +561,13 @@ def rule_ex8(A: Analysis, rep, F: ExecFacts):
     okb = True
     for b in brks:
         par = b._parent
-        if not (isinstance(par, ast.If) and isinstance(par.test, ast.Name)):
+        if not isinstance(par, ast.If):
             okb = False
             continue
-        flag = par.test.id
-        vals = [x.value for x in A.defs(fi, flag) if isinstance(x, ast.Assign)]
+        if isinstance(par.test, ast.Name):
+            vals = [x.value for x in A.defs(fi, par.test.id) if isinstance(x, ast.Assign)]
+        else:
+            vals = [par.test]
         for v in vals:
             if isinstance(v, ast.Constant) and v.value is False:
                 continue
@@ -559,7 +578,7 @@ def rule_ex8(A: Analysis, rep, F: ExecFacts):
     rep.check(okb and not rets, "EX8", "loop exits", loop, "the loop is left early only on the stop flag returned by the helpers",
               "the main loop can be left early for another reason")
     # wait only when something is in flight
-    gw = [n for n in g.nodes if n.kind == "stmt" and A.calls_in(n.ast, "Executor._wait_for_next_inflight_op")]
+    gw = [n for n in g.nodes if n.kind in ("stmt", "test") and n.ast is not None and A.calls_in(n.ast, "Executor._wait_for_next_inflight_op")]
     hdr = [n for n in g.nodes if n.kind == "test" and n.info is loop][0]
     for n in gw:
         guards = A.path_guards(g, hdr, n, fi)
@@ -567,7 +586,7 @@ def rule_ex8(A: Analysis, rep, F: ExecFacts):
                   "the blocking wait is reached only when an op is in flight",
                   "the wait step can be reached with nothing in flight (blocks forever): [%s]" % " | ".join(fmt_conj(c) for c in guards))
     # each iteration calls the launch step first
-    ls = [n for n in g.nodes if n.kind == "stmt" and A.calls_in(n.ast, "Executor._launch_ops_if_able")]
+    ls = [n for n in g.nodes if n.kind in ("stmt", "test") and n.ast is not None and A.calls_in(n.ast, "Executor._launch_ops_if_able")]
     body_entry = [m for (m, l) in hdr.succ if l == "T"]
     rep.check(bool(ls) and all(g.all_paths_pass(be, w, ls, skip_labels=skip) for be in body_entry for w in gw), "EX8", "launch before wait", loop,
               "", "the wait step is reachable without the launch step having run in that iteration")
@@ -677,19 +696,26 @@ def rule_ex10(A: Analysis, rep, F: ExecFacts):
     g = A.cfg(fi, "plain")
     loops = [n for n in walk_local(fi.node) if isinstance(n, ast.While) and A.calls_in(n, "Executor._launch_ops_if_able")]
     loop = loops[0]
-    # each helper result leads to break when true
+    # each helper result, when true, leaves the main loop at once: with the "flag is false" edges removed, the loop
+    # header must be unreachable from the call
+    hdr0 = [n for n in g.nodes if n.kind == "test" and n.info is loop][0]
+    in_loop = {id(x) for x in ast.walk(loop)}
     for tgt in ("Executor._launch_ops_if_able", "Executor._wait_for_next_inflight_op"):
-        for st in walk_local(loop):
-            if isinstance(st, ast.Assign) and isinstance(st.value, ast.Call) and A.res.is_call_to(st.value, tgt):
-                flag = norm(st.targets[0])
-                body = st._parent.body if hasattr(st._parent, "body") else []
-                idx = body.index(st) if st in body else -1
-                nxt = body[idx + 1] if 0 <= idx < len(body) - 1 else None
-                ok = isinstance(nxt, ast.If) and norm(nxt.test) == flag and any(isinstance(b, ast.Break) for b in nxt.body)
-                rep.check(ok, "EX10", "stop flag from %s breaks" % tgt.rsplit(".", 1)[1], st,
-                          "a True result stops the main loop immediately", "the stop flag returned by %s is not followed by a break" % tgt)
-            elif isinstance(st, ast.Expr) and isinstance(st.value, ast.Call) and A.res.is_call_to(st.value, tgt):
-                rep.bad("EX10", "stop flag from %s ignored" % tgt.rsplit(".", 1)[1], st, "the helper's stop flag is discarded")
+        for n in g.nodes:
+            if n.kind not in ("stmt", "test") or n.ast is None or id(n.ast) not in in_loop or n is hdr0:
+                continue
+            calls = [c for c in A.calls_in(n.ast, tgt)]
+            if not calls:
+                continue
+            if n.kind == "test":
+                false_edges = [e for e in A.edges_implying(g, fi, A.atom(calls[0], fi)[0], False) if e[0] is n]
+            elif isinstance(n.ast, ast.Assign) and n.ast.value is calls[0] and isinstance(n.ast.targets[0], ast.Name):
+                false_edges = A.edges_implying(g, fi, "t(%s)" % n.ast.targets[0].id, False)
+            else:
+                false_edges = []
+            r = g.reach([m for (m, l) in n.succ if not is_exc(l) and not ((n, branch_of(l)) in false_edges)], skip_labels=is_exc, removed_edges=false_edges)
+            rep.check(hdr0 not in r, "EX10", "stop flag from %s breaks" % tgt.rsplit(".", 1)[1], n.ast,
+                      "a True result stops the main loop immediately", "a True stop flag returned by %s does not leave the main loop (the next iteration can start)" % tgt)
     # terminate_processes() after the loop on the normal path
     hdr = [n for n in g.nodes if n.kind == "test" and n.info is loop][0]
     terms = [n for n in g.nodes if n.kind == "stmt" and A.calls_in(n.ast, "_InflightOperations.terminate_processes")
